@@ -205,6 +205,10 @@ func runC08(c *engine.Ctx) {
 			allowArg := args[len(args)-1]
 			c.AllPaths("server/proxy."+t+".Run", engine.PathCheck{Fn: run, Sink: engine.Is(call), Track: []ssa.Value{allowArg}, Pred: func(st *engine.PathState) string {
 				v := st.Resolve(allowArg)
+				// the default may be computed by a helper (explored inline): what it returned on this path
+				if r := st.Returned(v); r != nil {
+					v = st.Resolve(r)
+				}
 				lf, _ := engine.LoadedField(v)
 				isCfgList := lf != nil && lf.Name() == "AllowUsers"
 				// is there a literal len(AllowUsers)==0 on the path?
@@ -224,7 +228,7 @@ func runC08(c *engine.Ctx) {
 					if b, ok := lc.Call.Value.(*ssa.Builtin); !ok || b.Name() != "len" {
 						continue
 					}
-					af, _ := engine.LoadedField(lc.Call.Args[0])
+					af, _ := engine.LoadedField(st.Resolve(lc.Call.Args[0]))
 					if af == nil || af.Name() != "AllowUsers" {
 						continue
 					}
